@@ -9,6 +9,8 @@
 (* scenarios marked sync, the derive-macro step law (C19).                  *)
 EXTENDS BlockContractDefs, BlockFns, SequencesExt, Json, IOUtils, TLCExt
 
+H == INSTANCE Hdlc
+
 VARIABLES l,
           hdr,                  \* current scenario header
           out, otags,           \* per output: samples / tags produced so far
@@ -151,6 +153,8 @@ Expected ==
     [] f.kind = "totext" -> ToTextFn(p, ins)
     [] f.kind = "fftframes" -> FftFrames(p, ins)
     [] f.kind = "s2pdu" -> << Flatten(StreamToPduFn(p, ins, InTagSet)) >>
+    [] f.kind = "hdlc" -> << Flatten(H!Deframe(p, ins[1])) >>
+    [] f.kind = "expect" -> p.expect
     [] f.kind = "p12" -> << Flatten([k \in 1 .. (Len(ins[1]) \div 2) |-> <<ins[1][2 * k - 1], ins[1][2 * k]>>]), ins[1] >>
     [] OTHER -> <<>>
 ExpectedTags ==
